@@ -364,7 +364,7 @@ macro_rules! harness_g {
         #[cfg_attr(kani, kani::unwind($u))]
         #[cfg_attr(kani, kani::stub(compute::linalg::is_square, $crate::stubs::is_square))]
         #[cfg_attr(kani, kani::stub(f64::abs, $crate::rt::fabs))]
-        #[cfg_attr(kani, kani::stub(compute::functions::gamma, $crate::rt::gamma_uf))]
+        #[cfg_attr(kani, kani::stub(compute::prelude::gamma, $crate::rt::gamma_uf))]
         pub fn $name() {
             $body;
             $crate::rt::finish();
